@@ -261,9 +261,15 @@ func init() {
 					instrs(g, func(in ssa.Instruction) {
 						switch x := in.(type) {
 						case *ssa.Call:
-							switch name := staticCalleeName(x); name {
-							case "strconv.ParseFloat", "strconv.FormatFloat", "strconv.Atoi", "strconv.ParseInt", "strings.ToLower", "strings.ToUpper", "strings.TrimSpace", "strings.Fields":
-								bad = name + " at " + e.ipos(in)
+							name := staticCalleeName(x)
+							// only renderings and joins are expected on this path; any other text or number transformation may fold keys
+							if name == "strings.Join" {
+								break
+							}
+							for _, pkg := range []string{"strings.", "strconv.", "bytes.", "unicode.", "(*regexp.Regexp).", "math.", "(*math/big."} {
+								if strings.HasPrefix(name, pkg) {
+									bad = name + " at " + e.ipos(in)
+								}
 							}
 						case *ssa.Convert:
 							if isFloat(x.Type()) || isFloat(x.X.Type()) {
